@@ -9,7 +9,7 @@ TARGETS = {
 PROPS = {
     "C05": dict(
         targets=["c05_krylov_real", "c05_krylov_complex", "c05_fterm_real", "c05_fterm_complex"],
-        shard_mult={"quick": 4},
+        shard_mult={"quick": 4, "thorough": 6},
         level="exploration",
         rule="tape-decoded systems n<=40 (graph patterns path/grid/er/tree/band/star/union/diagonal and dense n<=8; Hermitian positive definite, general incl. structurally "
              "non-symmetric and indefinite, complex with non-real diagonal; kappa_2 driven constructively to a log-uniform target <=95 and measured with Eigen), preconditioner in "
